@@ -115,9 +115,11 @@ JVerdict(e) ==
 
 Verdict(e) == IF e.kind = "rp" \/ e.kind = "rp2" THEN RpVerdict(e)
               ELSE IF e.kind = "x" THEN XVerdict(e) ELSE JVerdict(e)
+\* all verdicts, evaluated once at constant level (TLC caches LET definitions only there)
+Verdicts == TLCEval([k \in 1..Len(Trace) |-> Verdict(Trace[k])])
 Init == i = 1
 Next == /\ i <= Len(Trace)
-        /\ LET v == Verdict(Trace[i])
+        /\ LET v == Verdicts[i]
            IN PrintT(<<"V", Trace[i].case, v[1], v[2], v[3], v[4]>>)
         /\ i' = i + 1
 =============================================================================
